@@ -3,8 +3,9 @@
 Decided: the order and guards of StorageServer.slot_testv_and_readv_and_writev
 (collect + write-enabler check of every share -> test -> read -> guarded
 write), the absence of filesystem-write effects in the collect/test/read
-stages, the all-shares write-enabler loop, the timing-safe comparison, and the
-closed set of callers of the mutable write path.  DESIGN.md section 5, C24."""
+stages, the all-shares write-enabler loop, the timing-safe comparison, the
+closed set of callers of the mutable write path, and that both the per-share and
+the per-request test verdicts are conjunctions over all their comparisons.  DESIGN.md section 5, C24."""
 from sa.h import *
 
 EXPLANATION = (
@@ -27,8 +28,15 @@ EXPLANATION = (
     "(8) all-or-nothing across shares: every request-validation exception that a share's write step can raise "
     "explicitly (transitively, storage package) must also be raised at a point no mutating step can precede - "
     "on the pinned tree this FAILS for DataTooLargeError (finding: a later share's oversized write aborts the request "
-    "after earlier shares were written).  Undecided (explicit non-claim): I/O errors (OSError) in the middle of the "
-    "write stage; NoSpace from the lease step after all writes; interleaving with other requests; values compared.")
+    "after earlier shares were written); (9) the verdict of ONE share is the conjunction of all comparisons of its test "
+    "vector: MutableShareFile.check_testv and EmptyShare.check_testv (and any storage-package helper they delegate to, "
+    "summarised recursively) are explored with a concrete boolean store in which every testv_compare forks into "
+    "succeeded / failed - whether it stands in a condition, an assignment, and/or, all()/any() or a return - and on "
+    "every normal path the result is falsy once any comparison failed, True only if none failed and the loop over the "
+    "whole vector ran to completion, and no iteration passes an entry over; (6) uses the same evaluation for the "
+    "per-request verdict over the shares.  Undecided (explicit non-claim): I/O errors (OSError) in the middle of the "
+    "write stage; exceptional paths inside check_testv (a raise aborts the request before any write); that the "
+    "comparison operands are the share's data at (offset, length) and the entry's specimen (decided under C23.7); NoSpace from the lease step after all writes; interleaving with other requests; values compared.")
 TECHNIQUE = "static analysis: CFG must-precede/guard rules, filesystem-effect summaries over the call graph, who-may-call"
 
 MSF = "storage.mutable:MutableShareFile"
@@ -374,7 +382,8 @@ class ConjunctionVerdict:
             return [(v, False, False, False, None)]
 
         def then(o, o2, v):
-            return (v, o[1] or o2[1], o[2] or o2[2], o[3] or o2[3], o2[4] or o[4])
+            # a value combined by this function is this function's construct: the helper origin is dropped
+            return (v, o[1] or o2[1], o[2] or o2[2], o[3] or o2[3], None)
         if e is None:
             return plain(None)
         if isinstance(e, ast.Constant):
@@ -382,7 +391,7 @@ class ConjunctionVerdict:
         if isinstance(e, ast.Name):
             return plain(vals.get(e.id, "?"))
         if isinstance(e, ast.UnaryOp) and isinstance(e.op, ast.Not):
-            return [(_neg(o[0]),) + o[1:] for o in self.ev(fn, tv, vals, e.operand)]
+            return [(_neg(o[0]),) + o[1:4] + (None,) for o in self.ev(fn, tv, vals, e.operand)]
         if isinstance(e, ast.BoolOp):
             stop = not isinstance(e.op, ast.And)         # the truth value that short-circuits
             outs = self.ev(fn, tv, vals, e.values[0])
